@@ -204,6 +204,8 @@ class Interp:
         self.continuous = None  # callable(form argument) -> bool (two-sided poly mode: physical polynomial shared by sides)
         self.flags = set()
         self.min_den = math.inf
+        self.geo_by_domain = {}  # repr(mesh) -> Geometry for meshes other than the environment's
+        self.max_inter = 0.0  # largest |value| of any sub-expression (cancellation of huge terms leaves visible noise)
         self.max_fn_arg = 0.0  # largest |argument| handed to a math/Bessel function (sin(2e5) amplifies rounding by 2e5)
         self._clean = None
 
@@ -249,6 +251,10 @@ class Interp:
         exp = tuple(e.ufl_shape) + tuple(e.ufl_index_dimensions)
         if v.shape[1:] != exp:
             raise AssertionError(f"interp shape bug at {type(e).__name__}: {v.shape[1:]} vs {exp}")
+        if v.size:
+            m = float(np.max(np.abs(v[0])))
+            if m > self.max_inter:  # (NaN compares false)
+                self.max_inter = m
         self.memo[key] = v
         return v
 
@@ -302,6 +308,9 @@ class Interp:
     def _geo(self, e, s):
         env = self.env(s)
         geo = env.geo
+        if self.geo_by_domain:
+            # several meshes in one expression: the geometry of the mesh the quantity belongs to
+            geo = self.geo_by_domain.get(repr(e.ufl_domain()), geo)
         cn = geo.cellname
         n = type(e).__name__
         f = env.facet
